@@ -11,7 +11,7 @@ from typing import Dict, List, Tuple
 
 from ..asm import Buf, FlatBuf, Run
 from ..dofsym import KINDS, NumBlock, run_dofs
-from ..interp import Interp, Obj, Raised, Unsupported
+from ..interp import Interp, Obj, PyFunc, Raised, Unsupported
 from ..model import staged, AnalysisError, Model, src, walk_no_nested
 from ..poly import Poly
 from .c04 import _kinds_in, _local_sites, _names_sites, _order_from_preds
@@ -123,58 +123,153 @@ def _local_shape(rep, rule, model, cls, run, result, roles, tag=""):
            f"matrices are transposed relative to the global matrix", line)
 
 
+class AxArr:
+    """array described by its axes (tuple of role names, slowest first);
+    a flat array is one axis whose role is the tuple of merged roles"""
+    skv_isarray = True
+
+    def __init__(self, axes, tag="data"):
+        self.axes, self.tag = tuple(axes), tag
+
+    def __eq__(self, o):
+        return isinstance(o, AxArr) and (self.axes, self.tag) == (o.axes,
+                                                                  o.tag)
+
+    def __hash__(self):
+        return hash((self.axes, self.tag))
+
+    def __repr__(self):
+        return f"{self.tag}{list(self.axes)}"
+
+    def skv_getattr(self, name):
+        if name == "shape":
+            return tuple(Poly.sym("n_" + str(a)) for a in self.axes)
+        if name == "reshape":
+            def rs(a, k, n):
+                shp = a[0] if len(a) == 1 and isinstance(a[0], tuple) else a
+                if k.get("order", "C") not in ("C", "c"):
+                    raise Unsupported("non-C reshape")
+                if len(self.axes) != 1 or not isinstance(self.axes[0],
+                                                         tuple):
+                    raise Unsupported("reshape of a non-flat array")
+                roles = self.axes[0]
+                # the leading extents must be the symbols of the merged
+                # roles in order; -1 takes the rest
+                out, k_ = [], 0
+                for ext in shp:
+                    if ext == -1 or ext == Fraction(-1):
+                        out.append(roles[k_] if len(roles) - k_ == 1
+                                   else tuple(roles[k_:]))
+                        k_ = len(roles)
+                    else:
+                        if k_ >= len(roles) or \
+                                Poly.coerce(ext) != Poly.sym(
+                                    "n_" + str(roles[k_])):
+                            return AxArr(("MISMATCH",), "reshape")
+                        out.append(roles[k_])
+                        k_ += 1
+                return AxArr(out, self.tag)
+            return PyFunc(rs)
+        if name == "flatten":
+            def fl(a, k, n):
+                order = a[0] if a else k.get("order", "C")
+                if order not in ("C", "c"):
+                    return AxArr((tuple(reversed(self.axes)),), self.tag)
+                return AxArr((tuple(self.axes),), self.tag)
+            return PyFunc(fl)
+        raise Unsupported("array." + name)
+
+
+def _ax_hook(interp, name, args, kwargs, node):
+    if name == "numpy.moveaxis" and isinstance(args[0], AxArr):
+        a, s_, d = args[0], int(args[1]), int(args[2])
+        ax = list(a.axes)
+        x = ax.pop(s_ % len(ax))
+        ax.insert(d % (len(ax) + 1), x)
+        return AxArr(ax, a.tag)
+    if name == "numpy.linalg.inv" and isinstance(args[0], AxArr):
+        a = args[0]
+        return AxArr(a.axes, "inv(" + a.tag + ")")
+    if name == "numpy.hstack":
+        seq = list(args[0])
+        return ("hstack", tuple(seq))
+    if name == "dataclasses.replace":
+        return ("replace", args[0], dict(kwargs))
+    return NotImplemented
+
+
 def _l2(model, rep):
+    """tolocal / fromlocal / inverse / __add__ by symbolic runs on an
+    axis-typed data array (flat = [test i][trial j][cell c] merged)"""
     L2 = "C19-L2"
-    tl = model.func(CO, "COOData.tolocal")
-    fl = model.func(CO, "COOData.fromlocal")
-    t_mv = [n for n in ast.walk(tl.node) if isinstance(n, ast.Call)
-            and src(n.func) == "np.moveaxis"]
-    f_mv = [n for n in ast.walk(fl.node) if isinstance(n, ast.Call)
-            and src(n.func) == "np.moveaxis"]
-    ok = False
-    detail = ""
-    if len(t_mv) == 1 and len(f_mv) == 1:
-        ta = (src(t_mv[0].args[1]), src(t_mv[0].args[2]))
-        fa = (src(f_mv[0].args[1]), src(f_mv[0].args[2]))
-        rs = t_mv[0].args[0]
-        rs_ok = (isinstance(rs, ast.Call) and src(rs.func).endswith(
-            "data.reshape") and src(rs.args[0]).replace(" ", "")
-            == "self.local_shape+(-1,)")
-        t_order = [src(k.value) for k in getattr(rs, "keywords", [])
-                   if k.arg == "order"] or ["'C'"]
-        fcall = [n for n in ast.walk(fl.node) if isinstance(n, ast.Call)
-                 and isinstance(n.func, ast.Attribute)
-                 and n.func.attr == "flatten"]
-        f_order = [src(a) for a in fcall[0].args] if fcall and \
-            fcall[0].args else ["'C'"]
-        ok = (ta == ("-1", "0") and fa == ("0", "-1") and rs_ok
-              and t_order == f_order)
-        detail = f"tolocal moveaxis{ta} order {t_order}, fromlocal " \
-                 f"moveaxis{fa} order {f_order}"
+    ccls = model.cls(CO, "COOData")
+    flat = AxArr((("i", "j", "c"),))
+    lshape = (Poly.sym("n_i"), Poly.sym("n_j"))
+    obj = Obj(ccls, {"data": flat, "local_shape": lshape,
+                     "indices": "IDX", "shape": ("R", "C")})
+    tl, fl = ccls.methods["tolocal"], ccls.methods["fromlocal"]
+    try:
+        loc = Interp(model, call_hook=_ax_hook).call(tl, [], {},
+                                                     self_obj=obj)
+    except (Unsupported, Raised) as e:
+        raise AnalysisError(f"COOData.tolocal: {e}")
+    ok = isinstance(loc, AxArr) and loc.axes == ("c", "i", "j")
+    _v(rep, L2, ok, "COOData.tolocal:axes",
+       "local[c, i, j] is the entry of cell c for local pair (i, j)", FCO,
+       "COOData.tolocal",
+       f"tolocal returns an array with axes {loc!r}; expected [cell, first "
+       f"local index, second local index] of the data laid out "
+       f"[i][j][cell]", tl.lineno)
+    try:
+        back = Interp(model, call_hook=_ax_hook).call(
+            fl, [AxArr(("c", "i", "j"))], {}, self_obj=obj)
+    except (Unsupported, Raised) as e:
+        raise AnalysisError(f"COOData.fromlocal: {e}")
+    ok = isinstance(back, tuple) and back[0] == "replace" and \
+        back[1] is obj and back[2].get("data") == flat and \
+        set(back[2]) == {"data"}
     _v(rep, L2, ok, "COOData.tolocal/fromlocal:inverse",
-       f"reshape(local_shape + (-1,)) / moveaxis pairs are inverse "
-       f"({detail})", FCO, "COOData.fromlocal",
-       f"tolocal and fromlocal are not inverse reshapes ({detail})",
+       "fromlocal(tolocal()) restores the flat [i][j][cell] layout and "
+       "changes nothing else", FCO, "COOData.fromlocal",
+       f"fromlocal produces {back[2] if isinstance(back, tuple) else back!r}"
+       f": not the flat [i][j][cell] layout tolocal started from",
        fl.lineno)
-    inv = model.func(CO, "COOData.inverse")
-    _v(rep, L2, src(inv.node.body[-1]).replace(" ", "") ==
-       "returnself.fromlocal(np.linalg.inv(self.tolocal()))",
-       "COOData.inverse", "inverse = fromlocal(inv(tolocal()))", FCO,
-       "COOData.inverse", "inverse does not round-trip through "
-       "tolocal/fromlocal", inv.lineno)
-    add = model.func(CO, "COOData.__add__")
-    kws = {}
-    for n in ast.walk(add.node):
-        if isinstance(n, ast.Call) and src(n.func) == "replace":
-            kws = {k.arg: src(k.value).replace(" ", "") for k in n.keywords}
-    ok = (kws.get("indices") == "np.hstack((self.indices,other.indices))"
-          and kws.get("data") == "np.hstack((self.data,other.data))"
-          and kws.get("local_shape") == "None")
+    inv = ccls.methods["inverse"]
+    try:
+        r = Interp(model, call_hook=_ax_hook).call(inv, [], {},
+                                                   self_obj=obj)
+    except (Unsupported, Raised) as e:
+        raise AnalysisError(f"COOData.inverse: {e}")
+    ok = isinstance(r, tuple) and r[0] == "replace" and \
+        r[2].get("data") == AxArr((("i", "j", "c"),), "inv(data)")
+    _v(rep, L2, ok, "COOData.inverse", "inverse = fromlocal(inv(tolocal()))"
+       ": matrices inverted per cell and written back in the same layout",
+       FCO, "COOData.inverse",
+       f"inverse produces {r[2] if isinstance(r, tuple) else r!r}: the "
+       f"per-cell inverses are not written back in the [i][j][cell] layout",
+       inv.lineno)
+    add = ccls.methods["__add__"]
+    other = Obj(ccls, {"data": AxArr((("i", "j", "c"),), "data2"),
+                       "local_shape": lshape, "indices": "IDX2",
+                       "shape": (3, 5)})
+    obj2 = Obj(ccls, {"data": flat, "local_shape": lshape,
+                      "indices": "IDX", "shape": (4, 2)})
+    try:
+        r = Interp(model, call_hook=_ax_hook).call(add, [other], {},
+                                                   self_obj=obj2)
+    except (Unsupported, Raised) as e:
+        raise AnalysisError(f"COOData.__add__: {e}")
+    kw = r[2] if isinstance(r, tuple) and r[0] == "replace" else {}
+    ok = (kw.get("indices") == ("hstack", ("IDX", "IDX2"))
+          and kw.get("data") == ("hstack", (flat, other.attrs["data"]))
+          and kw.get("local_shape", 0) is None
+          and tuple(kw.get("shape", ())) == (4, 5))
     _v(rep, L2, ok, "COOData.__add__",
-       "indices and data concatenated in the same operand order; "
-       "local_shape dropped", FCO, "COOData.__add__",
-       f"sum of elemental data mis-pairs indices and data or keeps a stale "
-       f"local_shape ({kws})", add.lineno)
+       "indices and data concatenated in the same operand order; shape is "
+       "the elementwise maximum; local_shape dropped", FCO,
+       "COOData.__add__",
+       f"sum of elemental data mis-pairs indices and data, mis-sizes the "
+       f"result or keeps a stale local_shape ({kw})", add.lineno)
 
 
 def _l3(model, rep):
@@ -617,6 +712,16 @@ MUTANTS = [
       "                        product(*nargs[::-1]))))"), "C19-L6"),
 ]
 TWINS = [
+    ("tolocal moves the cell axis with positive axis numbers",
+     ("skfem/assembly/form/coo_data.py",
+      "                                              order='C'), -1, 0)",
+      "                                              order='C'),\n"
+      "                            len(self.local_shape), 0)")),
+    ("inverse spelled in two statements",
+     ("skfem/assembly/form/coo_data.py",
+      "        return self.fromlocal(np.linalg.inv(self.tolocal()))",
+      "        local = self.tolocal()\n"
+      "        return self.fromlocal(np.linalg.inv(local))")),
     ("vector element repeats locations with np.repeat by the component "
      "count",
      (_EV, _LOCS, "            self.doflocs = np.repeat(elem.doflocs, "
